@@ -88,6 +88,41 @@ def meek_distribute():
     modifies(E, 'residual')
 
 
+@contract('droop.rules.meek.Rule.count.<locals>.distributeVotes', props=['C08', 'C02'],
+          free={'E': 'Election', 'C': 'Candidates', 'V': 'vclass', 'V0': 'V0', 'V1': 'V1', 'self': 'MeekRule'},
+          instances=['scaled', 'real'], ledger=True)
+def meek_distribute_conserves():
+    """M1 (C08 / C02), strict rankings: after a Meek or Warren distribution the continuing candidates' tallies and the residual
+    add up to exactly the number of ballots, in every arithmetic (each ballot line hands out tallies + its own residual ==
+    its number of papers, by construction of the residual); no tally is touched other than through that hand-out"""
+    requires(same_ref(C, E.C))
+    requires(is_the_election(E))
+    requires(length(E.ballotsEqual) == 0, name='strict rankings only (the recursive split of equal rankings is not under this contract)')
+    requires(forall('ref:droop.election.Election.Ballot',
+                    lambda b: implies(is_ballot(b), and_(is_whole(b.multiplier), seq_len(b.ranking) >= 1))))
+    requires(forall('ref:droop.candidate.Candidate',
+                    lambda c: implies(and_(in_election(c), or_(c.state == 'defeated', c.state == 'withdrawn')),
+                                      and_(c.vote == E.V0, or_(is_none(c.kf), some(c.kf) == E.V0)))),
+             name='excluded and withdrawn candidates hold no votes and keep nothing (M2)')
+    requires(forall('ref:droop.candidate.Candidate',
+                    lambda c: implies(and_(in_election(c), or_(c.state == 'hopeful', c.state == 'elected')),
+                                      and_(not_(is_none(c.kf)), some(c.kf) >= E.V0, some(c.kf) <= E.V1))),
+             name='keep factors of continuing candidates lie in [0, 1]')
+    ensures(ghost('Tm') == V_of_int(E.electionProfile.nBallots),
+            name='tallies + residual == number of ballots, exactly')
+    modifies_all(Candidate, 'vote')
+    modifies_all(Ballot, 'weight', 'residual')
+    modifies(E, 'residual')
+    modifies_ghost('T', 'Tm', 'G')
+
+
+@loops('droop.rules.meek.Rule.count.<locals>.distributeVotes', anchor='for#3')
+def meek_distribute_ranking_loop():
+    "walking down one ballot's ranking: what has been handed to tallies plus the ballot's residual is its number of papers"
+    invariant(implies(ledger_on(), ghost('Tm') + b.residual == old(ghost('Tm') + b.residual)), props=['C08', 'C02'])
+    invariant(b.weight >= V0)
+
+
 @contract('droop.rules.meek.Rule.count', props=['C01', 'C09'], site_props=['C04', 'C07'], instances=['scaled', 'guarded'])
 def meek_count(self: 'MeekRule'):
     """Meek / Warren: every status change goes through elect/defeat of a hopeful candidate, the count ends with nobody
